@@ -176,5 +176,17 @@ CLAIMS = {
         "technique": "Coq model with explicit randomness oracle + instrumented correspondence + table-driven property oracle + hash-seed subprocess sweep; theorems partial",
         "design_ref": "DESIGN.md §4 C13",
     },
+    "C16": {
+        "text": "Theorems C16_equality / C16_with_strings / C16_hash / C16_order (equality on compact forms is an equivalence that "
+                "agrees with plain strings, equal objects hash alike for any hash function of the compact form, < is a strict total "
+                "order and <= agrees with it) and C16_copies (shallow copy, pickle round trip and deepcopy return the same value) "
+                "under the obligation C16_proto_obl on protocol facts regenerated from the tree: __new__ arity of each class equals "
+                "what its __getnewargs__ supplies, the inherited __deepcopy__ does not re-validate, __eq__/__hash__/__lt__ bodies are "
+                "the compact-form ones. copyreg/pickle internals are CPython's: the real copy/deepcopy/pickle (two protocols) run on "
+                "every object kind, valid and unvalidated. Fixed: BBAN copy/pickle TypeError (04934b9), deepcopy re-validation (ac55b33).",
+        "note": COMMON_NOTE + " The copy protocol itself (copyreg.__newobj__, pickle) is an oracle exercised by the stream.",
+        "technique": "Coq proof (order/equivalence laws on code-point lists; protocol consistency) + generated protocol obligation + object stream",
+        "design_ref": "DESIGN.md §4 C16",
+    },
 }
 NOT_APPLICABLE = {}
